@@ -152,7 +152,11 @@ def run(ctx):
         for n in elem_calls(e):
             if call_reaches(n, prep_ids):
                 prep_roots |= set(cg.targets_of(n))
-    if not ctx.anchor("R14.3", "reset pass in parse()", bool(prep_roots)) or not ctx.anchor("R14.3", "resolution pass in parse()", bool(cfg.find_elems(parse, is_val))):
+    if not prep_roots:
+        ctx.bad("R14.3", parse, "reset-pass-present", "parse(const std::vector<user_input>&) - the entry point that applies the tokens, public in its own right - contains no call that reaches "
+                "option/multi_option/toggle::prepare(): values, counts and dirty flags of an earlier parse are carried into this one", parse)
+        return
+    if not ctx.anchor("R14.3", "resolution pass in parse()", bool(cfg.find_elems(parse, is_val))):
         return
     prep_fns = [prog.fn(t) for t in sorted(prep_roots) if prog.fn(t) is not None]
     prep_opts = prep_fns[0]
